@@ -2048,7 +2048,24 @@ class Path:
         exactly one is None (unequal, stop).  Two distinct non-None links mean recursion into the neighbours - unboundedly
         deep (RecursionError on long lists, value-dependent result): obligation structural-eq-bounded."""
         cc = self.unit.classes[a.s.cls]
-        links = [f for f in cc.dataclass_fields if isinstance(cc.fields[f], RefS)]
+        # the field list is read from the REAL class: annotated fields in order; a field declared with field(..., compare=False) takes no
+        # part in the generated __eq__; the sidecar's dataclass_fields must name exactly the annotated fields (else the contract is stale)
+        m_, cn_ = self.eng.src_class(a.s.cls)
+        real, compared = [], []
+        for st in (cn_.body if cn_ is not None else []):
+            if isinstance(st, ast.AnnAssign) and isinstance(st.target, ast.Name):
+                real.append(st.target.id)
+                v_ = st.value
+                no_cmp = isinstance(v_, ast.Call) and getattr(v_.func, "attr", getattr(v_.func, "id", "")) == "field" and any(
+                    k.arg == "compare" and isinstance(k.value, ast.Constant) and k.value.value is False for k in v_.keywords)
+                if not no_cmp:
+                    compared.append(st.target.id)
+        if cn_ is not None and real != list(cc.dataclass_fields):
+            raise StaleContract("dataclass %s has fields %s in the source, the contract declares %s" % (a.s.cls, real, list(cc.dataclass_fields)))
+        for d_ in (cn_.decorator_list if cn_ is not None else []):
+            if isinstance(d_, ast.Call) and any(k.arg == "eq" and isinstance(k.value, ast.Constant) and k.value.value is False for k in d_.keywords):
+                return a.t == b.t          # @dataclass(eq=False): object identity
+        links = [f for f in cc.dataclass_fields if isinstance(cc.fields[f], RefS) and (cn_ is None or f in compared)]
         same = a.t == b.t
         decided = z3.BoolVal(False)       # "some link pair stops the comparison as unequal"
         all_equal_so_far = z3.BoolVal(True)
